@@ -571,6 +571,22 @@ def build_groups(chk: harness.Check) -> List[Group]:
         for target in driver.TARGETS:
             groups.append(Group(name, text, target, small_snippets(text, target), "small", entry(), 180.0, 1.0))
 
+    # a hand-written model full of what is kept in sets and dictionaries on the way:
+    # several patterns tightening one inherited property, multiple inheritance, sets of
+    # literals, strings and numbers, subsets; and a variant rejected with several errors
+    data = pathlib.Path(__file__).resolve().parent.parent / "data"
+    rich = (data / "c22_rich_model.py.txt").read_text(encoding="utf-8")
+    rich_targets = list(driver.TARGETS)
+    if chk.tier == "quick":
+        rich_targets = ["jsonschema", "xsd"] + rng.sample(
+            [t for t in driver.TARGETS if t not in ("jsonschema", "xsd")], 2
+        )
+    for target in rich_targets:
+        groups.append(Group("targeted/rich", rich, target, small_snippets(rich, target), "small", entry(), 180.0, 1.0))
+    rejected = (data / "c22_rich_rejected_model.py.txt").read_text(encoding="utf-8")
+    for target in rng.sample(driver.TARGETS, chk.pick(1, 3)):
+        groups.append(Group("targeted/rich-rejected", rejected, target, small_snippets(rich, target), "corpus", entry(), 180.0, 1.0))
+
     # rejected / crashing / other fixture models
     others = [m for m in corpus.models() if not m[0].startswith("common_meta_models/")]
     failing = [m for m in others if "/unexpected/" in m[0]]
